@@ -99,13 +99,27 @@ def gen(rng, tier, quarantine=()):
     supplied = [v for v in decl if rng.random() < 0.55]
     need_tool = False
     recs = []
+    failing = None
     for v in supplied:
         kind = rng.choice(["tweak", "overridable"])
-        if "no-overridable-on-declaration" in quarantine:
-            kind = "tweak"  # KF-C16-2
         need_tool |= kind == "tweak"
-        recs.append({"op": "mk", "id": f"o{n}", "kind": kind, "sels": [one_sel(fn, v)],
-                     "how": ["const", rng.choice([0, 5, 77])], "nojudge": True})
+        rec = {"op": "mk", "id": f"o{n}", "kind": kind, "sels": [one_sel(fn, v)],
+               "how": ["const", rng.choice([0, 5, 77])], "nojudge": True}
+        if kind == "overridable":
+            if "no-absent-scan-of-own-declaration-events" in quarantine:
+                # KF-C16-2: the probe's own event for the declaration carries ABSENT as the tentative
+                # value of v -- that key of that event is not scanned; everything else is judged
+                rec["absent_ok"] = [v]
+            if rng.random() < 0.5:
+                # supplied only for some calls: decided by the first parameter (p differs from call
+                # to call), the conditional form users write -- filter(...).override(value)
+                rec["sels"] = [{"levels": [{"fn": fn, "caps": [{"var": "p", "as": "p"}], "sibs": []}],
+                                "focus": {"var": v, "as": v}}]
+                rec["how"] = ["ctx_mod3_const", "p", rng.choice([0, 5, 77])]
+                rec["filtered"] = True
+                if failing is None and rng.random() < 0.5 and "no-failing-subscriber" not in quarantine:
+                    failing = rec["id"]
+        recs.append(rec)
         n += 1
     # other probes decide how much of the function is instrumented: all / some / none
     mode = rng.choice(["all", "some", "some", "none"])
@@ -147,7 +161,11 @@ def gen(rng, tier, quarantine=()):
     ops += recs
     for r in recs:
         ops.append({"op": "enter", "id": r["id"]})
-    for c in range(rng.randint(1, 3) + (2 if fn == "u3" else 0)):
+        if r["id"] == failing:
+            # a subscriber attached after the override fails on its k-th event: that call is cut
+            # short, and nothing of it may supply the declaration in a later call
+            ops.append({"op": "stage", "id": failing, "kind": "whole", "cap": None, "raises": rng.choice([1, 1, 2])})
+    for c in range(rng.randint(1, 3) + (2 if fn == "u3" else 0) + (3 if failing else 0)):
         if fn == "u3" and rng.random() < 0.5:
             # the global is deleted / defined again *between* calls (cached variants were built earlier)
             ops.append({"op": "setglobal", "name": "G1", "delete": rng.random() < 0.6, "value": 8})
